@@ -58,8 +58,18 @@ pub fn run(src: &str, formula: bool) -> String {
 pub fn exec(case: &str) -> String {
   let f: Vec<&str> = case.split('\t').collect();
   let src = String::from_utf8(crate::c07::unhex(f[2])).unwrap();
-  run(&src, f[1] == "formula")
+  let mut o = run(&src, f[1] == "formula");
+  if f[1] == "string" && o != "skip" {
+    // the content of the literal as the parser read it: the value the program evaluates to
+    let c = match eval(&src) { Ok(Value::String(s)) => hexs(&s.borrow()), Ok(_) => "other".to_string(), Err(_) => "err".to_string() };
+    o.push_str(&format!("|S={}", c));
+  }
+  o
 }
+
+/// the graphemes a string body is generated from: class letter (of Model/StrLit.lean) and text
+const STR_TOKENS: &[(&str, &str)] = &[("e", "a"), ("e", "n"), ("e", "t"), ("e", "r"), ("e", "z"), ("e", "é"), ("e", "."), ("e", "!"), ("e", "+"), ("e", "$"), ("e", "_"), ("e", "'"), ("e", "/"),
+  ("p", "1"), ("p", "0"), ("p", " "), ("p", "\t"), ("p", "😀"), ("p", "("), ("p", "]"), ("p", "<"), ("n", "\n"), ("q", "\""), ("b", "\\")];
 
 const SAMPLES: &[&str] = &[
   "x := 1 + 2 * (3 - 4)", "x := [1 2 3]", "x := [1 2; 3 4]", "x := [1; 2; 3]", "x := []", "x := 1..10", "x := 1..2..10", "x := 1..=2..=9", "x := 1.5e3", "x := 2e-3", "x := 1.25e+10",
@@ -94,6 +104,27 @@ pub fn generate(seed: u64, thorough: bool, sink: &mut Sink) -> Vec<String> {
   push("state-machines", take(crate::c17::generate(seed, thorough, &mut scratch), per / 2).iter().map(|c| crate::c17::source(c)).collect(), sink);
   push("documents", take(crate::c10::generate(seed, thorough, &mut scratch), per / 2).iter().map(|c| crate::c10::source(c)).collect(), sink);
   push("samples", SAMPLES.iter().map(|s| s.to_string()).collect(), sink);
+  // string literals: the body is a sequence of graphemes of known class; a quote in the body is always
+  // preceded by a backslash, a backslash may stand before anything (an escape where one is defined)
+  {
+    let mut rng = Rng::new(seed ^ 0x57A);
+    for _ in 0..per * 2 {
+      let len = rng.below(9) as usize;
+      let mut toks: Vec<(&str, &str)> = vec![];
+      for _ in 0..len {
+        let t = *rng.pick(STR_TOKENS);
+        // a backslash is always followed by one more grapheme of any class (an escape where one is defined,
+        // otherwise a plain backslash); a quote never stands without a backslash before it
+        if t.0 == "b" { toks.push(t); toks.push(*rng.pick(STR_TOKENS)); }
+        else if t.0 == "q" { toks.push(("b", "\\")); toks.push(t); }
+        else { toks.push(t); }
+      }
+      let body: String = toks.iter().map(|t| t.1).collect();
+      let spec: Vec<String> = toks.iter().map(|t| format!("{}:{}", t.0, hexs(t.1))).collect();
+      sink.hit("class:string");
+      out.push(format!("fmt\tstring\t{}\t{}", hexs(&format!("x := \"{}\"", body)), if spec.is_empty() { "-".to_string() } else { spec.join(",") }));
+    }
+  }
   // the repository's own Mech files
   if let Ok(rd) = std::fs::read_dir("/repo/docs") {
     let mut files: Vec<std::path::PathBuf> = vec![];
